@@ -1,10 +1,12 @@
 (* Extraction of the C17 models for the correspondence driver (ExtrOcamlBasic only). *)
 Require Extraction.
 Require Import ExtrOcamlBasic.
-From Quiver Require Import Ast Simplify Escape Pretty.
+From Quiver Require Import Ast Simplify Escape Pretty FormatFrag.
 Extraction Language OCaml.
 Extraction "extracted/format_model.ml"
   normalize_blocks compiler_options formatter_options keep_by_span
   escape_single unescape scan_single render_multiline process_multiline process_multiline_term
   scan_multiline_raw multiline_dedent process_escapes
-  Pretty.print Pretty.group Pretty.forces_break.
+  Pretty.print Pretty.group Pretty.forces_break
+  FormatFrag.format_frag FormatFrag.parse_frag FormatFrag.wf_chain FormatFrag.flatten FormatFrag.flat_width
+  Pretty.strip_trailing_whitespace.
